@@ -57,6 +57,9 @@ pub struct Case {
 #[derive(Serialize, Clone, Debug)]
 pub struct Run {
   pub stims: Vec<Stim>,
+  /// a stimulus of the case could not be applied to the real objects (e.g. it addresses a source subscription the
+  /// crate never made): the run stops before it; only possible when the crate has left the model
+  pub truncated: bool,
   pub leak_sink: Option<bool>,
   pub leak_ops: Option<bool>,
   pub panics: Vec<String>,
@@ -82,6 +85,8 @@ pub fn run_case(case: &Case) -> Run {
   let counts2 = counts.clone();
   let leaks: Arc<Mutex<(Option<bool>, Option<bool>)>> = Default::default();
   let leaks2 = leaks.clone();
+  let trunc: Arc<Mutex<bool>> = Default::default();
+  let trunc2 = trunc.clone();
   let reached: Arc<Mutex<usize>> = Arc::new(Mutex::new(0));
   let reached2 = reached.clone();
   arx_vstd::collections::REVERSE.store(case.rev, std::sync::atomic::Ordering::Relaxed);
@@ -135,13 +140,24 @@ pub fn run_case(case: &Case) -> Run {
             handles.push(sb);
           }
           "emit" => {
-            let o = w.lock().unwrap().regs[st.a as usize][st.b as usize - 1].clone();
+            let o = w.lock().unwrap().regs.get(st.a as usize).and_then(|r| r.get(st.b as usize - 1)).cloned();
+            let o = match o {
+              Some(o) => o,
+              None => {
+                *trunc2.lock().unwrap() = true;
+                break;
+              }
+            };
             log(&w, "probe", st.a, "issub", o.is_subscribed() as i64, st.b);
             match st.e.as_str() {
               "n" => o.next(st.v),
               "e" => o.error(err(st.v)),
               _ => o.complete(),
             }
+          }
+          "unsub" | "query" if handles.len() < st.a as usize => {
+            *trunc2.lock().unwrap() = true;
+            break;
           }
           "unsub" => {
             let h = &handles[st.a as usize - 1];
@@ -176,6 +192,9 @@ pub fn run_case(case: &Case) -> Run {
         let c = count_all(&w);
         counts2.lock().unwrap()[si] = Some(c);
       }
+      if *trunc2.lock().unwrap() {
+        return;
+      }
       *reached2.lock().unwrap() = case2.stims.len();
       // C17: drop every handle the harness holds (and break the harness's own cycles), then look at the tokens
       for s in slots.iter() {
@@ -198,10 +217,11 @@ pub fn run_case(case: &Case) -> Run {
       *leaks2.lock().unwrap() = (Some(Arc::strong_count(&tok) > 1), Some(Arc::strong_count(&tok_ops) > 2));
     },
   );
-  let log = std::mem::take(&mut w_out.lock().unwrap().log);
+  let truncated = *trunc.lock().unwrap();
+  let log = std::mem::take(&mut w_out.lock().unwrap_or_else(|e| e.into_inner()).log);
   // break cycles through the world so that repeated cases do not accumulate memory
   {
-    let mut g = w_out.lock().unwrap();
+    let mut g = w_out.lock().unwrap_or_else(|e| e.into_inner());
     g.regs.clear();
     g.inner.clear();
     g.sbj.clear();
@@ -222,6 +242,9 @@ pub fn run_case(case: &Case) -> Run {
     }
     let obs: Vec<Obs> = log.iter().filter(|(k, _)| *k == i).map(|(_, o)| o.clone()).collect();
     let completed = counts[i].is_some();
+    if truncated && !completed {
+      break;
+    }
     let fin = if completed { "ok" } else if panicked { "panic" } else { verdict };
     stims.push(Stim { st: s.st.clone(), obs, fin: fin.to_string(), cnt: counts[i].clone().unwrap_or_default() });
     if !completed {
@@ -231,6 +254,7 @@ pub fn run_case(case: &Case) -> Run {
   let (ls, lo) = *leaks.lock().unwrap();
   Run {
     stims,
+    truncated,
     leak_sink: ls,
     leak_ops: lo,
     panics: r.panics.iter().map(|(t, p)| format!("t{t}: {p}")).collect(),
@@ -346,7 +370,7 @@ pub fn trace_lines(id: u64, case: &Case, run: &Run, out: &mut Vec<String>) {
   for s in &run.stims {
     out.push(serde_json::json!({"ev": "stim", "st": s.st, "obs": s.obs, "fin": s.fin, "cnt": s.cnt}).to_string());
   }
-  out.push(serde_json::json!({"ev": "end", "id": id, "leak_sink": run.leak_sink.unwrap_or(false), "leak_ops": run.leak_ops.unwrap_or(false), "measured": run.leak_sink.is_some()}).to_string());
+  out.push(serde_json::json!({"ev": "end", "id": id, "leak_sink": run.leak_sink.unwrap_or(false), "leak_ops": run.leak_ops.unwrap_or(false), "measured": run.leak_sink.is_some(), "truncated": run.truncated}).to_string());
 }
 
 pub fn parse_case_line(line: &str) -> Option<Case> {
